@@ -331,16 +331,21 @@ def _od(pairs):
 def worker(ctx, job):
     deadline = time.time() + job["budget"]
     rng = ctx.rng
+    errs = []
     for i in range(job["n"]):
         if time.time() > deadline:
             ctx.inconclusive_case("wall-clock watchdog")
             break
-        server_case(ctx, rng, i, mem=(i % 10 != 0), deadline=deadline)
-        client_case(ctx, rng, i, deadline)
+        try:
+            server_case(ctx, rng, i, mem=(i % 10 != 0), deadline=deadline)
+            client_case(ctx, rng, i, deadline)
+        except (OSError, RuntimeError) as ex:      # the harness's own real sockets, never a verdict
+            errs.append("%s: %s" % (type(ex).__name__, ex))
+    hg.tolerate_socket_errors(ctx, errs, job["n"])
 
 
 def run(ctx):
-    n = ctx.pick(120, 2500)
+    n = ctx.pick(100, 5000)
     jobs = [{"n": n, "budget": ctx.pick(25, 330)} for _ in range(16)]
     ctx.shard(jobs, timeout=ctx.pick(60, 400))
     total = 16 * n
